@@ -90,6 +90,12 @@ def incomplete_pages(ids, subset, outs):
 _COUNTER = [0]
 
 
+def own_snapshot(outs):
+    """snapshot without the files of the earlier batch the harness put there"""
+    snap = F.snapshot(outs)
+    return {k: {fn: v for fn, v in files.items() if not fn.startswith("zz-old")} for k, files in snap.items()}
+
+
 def run_case(ctx, ids, subset, crashes):
     """crashes: list of write indices (relative to each run) at which successive runs are killed."""
     ids, subset = tuple(ids), tuple(subset)
@@ -100,8 +106,25 @@ def run_case(ctx, ids, subset, crashes):
     name = ("run%d" if _COUNTER[0] % 2 else "run[%d] a*b?")  % _COUNTER[0]      # output folders are arbitrary paths
     outs = F.out_dirs(job["root"], name, subset)
     smx = (len(subset) + sum(crashes)) % 2 == 1      # every other case also passes --skipp-missing-xml (all XML inputs exist)
-    desc = lambda: "ids=%r outputs=%r crash positions=%r skipp-missing-xml=%r (uninterrupted run makes %d writes: %r)" % (ids, subset, crashes, smx, W, ref_writes)
+    info_level = _COUNTER[0] % 4 == 1                # [PARSE_FOLDER] LOGGING_LEVEL = INFO
+    if info_level:
+        job = dict(job, config=job["config_info"])
+    foreign = _COUNTER[0] % 3 == 0                   # the output folders already hold the complete outputs of an earlier batch
+    desc = lambda: "ids=%r outputs=%r crash positions=%r skipp-missing-xml=%r logging INFO=%r outputs of other pages present=%r (uninterrupted run makes %d writes: %r)" % (
+        ids, subset, crashes, smx, info_level, foreign, W, ref_writes)
     try:
+        if foreign:
+            import pickle
+            ext = {"xml": ".xml", "render": ".jpg", "logits": ".logits", "alto": ".xml"}
+            for k in subset:
+                os.makedirs(outs[k], exist_ok=True)
+                for j in range(len(ids) + 1):
+                    fn = ("zz-old%d-r1-l001.jpg" % j) if k == "lines" else ("zz-old%d%s" % (j, ext[k]))
+                    with open(os.path.join(outs[k], fn), "wb") as f:
+                        f.write(pickle.dumps({}) if k == "logits" else b"<old/>")
+            ctx.event("outputs_of_an_earlier_batch_present")
+        if info_level:
+            ctx.event("logging_level_info")
         inside = False
         first = True
         history = []
@@ -129,13 +152,13 @@ def run_case(ctx, ids, subset, crashes):
         ctx.check(status == "ok", "resume_does_not_exit_cleanly", lambda: "status %s; history %r; stdout tail %r; " % (status, history, inj.stdout[-300:]) + desc())
         if not first:
             check_processed(ctx, ids, subset, before, inj, status, desc, history)
-        diff = F.diff_snapshots(ref_snap, F.snapshot(outs))
+        diff = F.diff_snapshots(ref_snap, own_snapshot(outs))
         ctx.check(not diff, "outputs_differ_after_resume", lambda: "%r; history %r; " % (diff, history) + desc())
         # one more resume: nothing left to do, exits cleanly, processes nothing
         status, inj = F.run_main(F.argv_for(job, outs, skip=True, skip_missing_xml=smx))
         ctx.check(status == "ok", "resume_with_nothing_to_do_fails", lambda: "status %s; " % status + desc())
         ctx.check(not inj.processed, "complete_page_processed_again", lambda: "a resume over a complete folder processed %r; " % (inj.processed,) + desc())
-        ctx.check(not F.diff_snapshots(ref_snap, F.snapshot(outs)), "outputs_changed_by_idle_resume", desc)
+        ctx.check(not F.diff_snapshots(ref_snap, own_snapshot(outs)), "outputs_changed_by_idle_resume", desc)
         if inside:
             ctx.event("crash_inside_a_page")
             ctx.nontrivial((ids, subset, tuple(crashes)))
